@@ -62,6 +62,12 @@ partial def parsePieces (cs : List Char) (acc : List Piece) : Option (List Piece
   match cs with
   | [] => some (acc.reverse, false)
   | ['$'] => some (acc.reverse, true)
+  -- a group that is not quantified and has no alternation only brackets its pieces: `^(.*)$`
+  | '(' :: '?' :: ':' :: r => parsePieces r acc
+  | '(' :: '?' :: _ => none
+  | '(' :: r => parsePieces r acc
+  | ')' :: q :: r => if q == '*' || q == '+' || q == '?' || q == '{' then none else parsePieces (q :: r) acc
+  | [')'] => some (acc.reverse, false)
   | c :: r =>
     let atomRest : Option (Atom × List Char) :=
       match c, r with
